@@ -262,7 +262,7 @@ impl Part for Select {
     }
     fn cases(&self, tier: Tier) -> usize {
         match tier {
-            Tier::Quick => 16_000,
+            Tier::Quick => 48_000,
             Tier::Thorough => 800_000,
         }
     }
